@@ -1,8 +1,13 @@
 (* Props/C01.v — ECDSA: signing is complete, verification is sound, signatures canonical.
 
    Model: Model/Pecc.v (ecdsa_verify, deterministic_k, ecdsa_sign_k, ecdsa_sign, der,
-   der_parse), validated against buidl/pecc.py by harness/props/c01.py.
-   Specs: Spec/Ecdsa.v (textbook validity), Spec/Rfc6979.v (RFC 6979 section 3.2).
+   der_parse, pubkey, parse_point) and Model/EcdsaApi.v (the compositions a user calls: sign(z).der(),
+   sign_message, verify(z, Signature.parse(b)), verify_message, S256Point.parse(sec).verify(...)),
+   validated against buidl/pecc.py by harness/props/c01.py.
+   Specs: Spec/Ecdsa.v (textbook validity), Spec/Rfc6979.v (RFC 6979 section 3.2 as a loop),
+   Spec/Rfc6979Seq.v (the same as "first acceptable candidate of the DRBG sequence").
+   Proofs: Proofs/EcdsaP.v (sections 1-5), Proofs/EcdsaDerP.v (6), Proofs/EcdsaDeepP.v (7-10),
+   Proofs/EcdsaJudgeP.v (9c).
 
    Hypotheses that remain premises (never axioms):
      [scalar_laws C]  group axioms / order of G / primality of n, about the model's
@@ -14,6 +19,7 @@
 From Coq Require Import Znumtheory.
 From V Require Import Base.Prelude Base.Ints Model.Pecc Proofs.GroupHyp Proofs.ToyCurve
   Spec.Ecdsa Spec.Rfc6979 Proofs.EcdsaP.
+From V Require Import Model.EcdsaApi Spec.Rfc6979Seq Proofs.EcdsaDerP Proofs.EcdsaDeepP Proofs.EcdsaJudgeP.
 
 (* ---------------------------------------------------------------- (1) DER *)
 
@@ -179,6 +185,370 @@ Theorem C01_ecdsa_okb_sound : forall C Q z r s, ecdsa_okb C Q z r s = true -> ec
 Proof. exact ecdsa_okb_sound. Qed.
 Print Assumptions C01_ecdsa_okb_sound.
 
+(* ================================================================ deepening (sections 6-10) *)
+
+(* ---------------------------------------------------------------- (6) DER: parser, strictness, lengths *)
+
+(* exactly which strings Signature.parse accepts — no size bound: 30 L 02 lr R 02 ls S with L, lr, ls the
+   actual lengths and R, S non-empty; nothing about minimality or sign *)
+Theorem C01_der_parse_iff : forall b r s,
+  der_parse b = Ok (r, s) <->
+  exists rb sb, b = der_frame rb sb /\ (1 <= length rb)%nat /\ (1 <= length sb)%nat /\
+                r = from_be rb /\ s = from_be sb.
+Proof. exact der_parse_iff. Qed.
+Print Assumptions C01_der_parse_iff.
+
+Theorem C01_der_parse_err_iff : forall b,
+  der_parse b = Err <->
+  ~ exists rb sb, b = der_frame rb sb /\ (1 <= length rb)%nat /\ (1 <= length sb)%nat.
+Proof. exact der_parse_err_iff. Qed.
+Print Assumptions C01_der_parse_err_iff.
+
+(* a value has ONE minimal positive DER integer *)
+Theorem C01_der_min_unique : forall a b,
+  bytes_ok a -> bytes_ok b -> der_min a -> der_min b -> from_be a = from_be b -> a = b.
+Proof. exact der_min_unique. Qed.
+Print Assumptions C01_der_min_unique.
+
+(* the image of the encoder IS the strict grammar (der_strict: both bodies minimal, values r, s) *)
+Theorem C01_der_image_iff : forall r s b,
+  1 <= r < 2 ^ 256 -> 1 <= s < 2 ^ 256 -> (der r s = Ok b <-> der_strict b r s).
+Proof. exact der_image_iff. Qed.
+Print Assumptions C01_der_image_iff.
+
+(* the converse round trip: Signature.parse(b).der() = b exactly for the strict strings *)
+Theorem C01_der_reencode_id_iff : forall b,
+  der_reencode b = Ok b <-> exists r s, 1 <= r < 2 ^ 256 /\ 1 <= s < 2 ^ 256 /\ der_strict b r s.
+Proof. exact der_reencode_id_iff. Qed.
+Print Assumptions C01_der_reencode_id_iff.
+
+(* "all DER strings the encoder can emit": parse is a left inverse on the whole image, the encoder injective *)
+Theorem C01_der_parse_der : forall r s b, der r s = Ok b -> der_parse b = Ok (r, s).
+Proof. exact der_parse_der. Qed.
+Print Assumptions C01_der_parse_der.
+
+Theorem C01_der_injective : forall r s r' s' b,
+  der r s = Ok b -> der r' s' = Ok b -> r = r' /\ s = s'.
+Proof. exact der_injective. Qed.
+Print Assumptions C01_der_injective.
+
+(* the parser is NOT strict (outside the property, which quantifies over encoder output only) *)
+Theorem C01_der_parse_not_strict :
+  exists b r s, bytes_ok b /\ der_parse b = Ok (r, s) /\ 1 <= r < 2 ^ 256 /\ 1 <= s < 2 ^ 256 /\
+                der r s <> Ok b.
+Proof. exact der_parse_not_strict. Qed.
+Print Assumptions C01_der_parse_not_strict.
+
+Theorem C01_der_parse_accepts_negative :
+  exists b r s, bytes_ok b /\ der_parse b = Ok (r, s) /\ der r s <> Ok b /\
+                exists b', der r s = Ok b' /\ length b' = S (S (length b)).
+Proof. exact der_parse_accepts_negative. Qed.
+Print Assumptions C01_der_parse_accepts_negative.
+
+(* length classes: 6 + octets(r) + octets(s), octets(v) = (log2 v + 9) / 8; every total in 8..72 *)
+Theorem C01_der_length : forall r s b, der r s = Ok b ->
+  zlen b = 6 + der_ilen r + der_ilen s /\ 8 <= zlen b <= 72.
+Proof. exact der_length. Qed.
+Print Assumptions C01_der_length.
+
+Theorem C01_der_length_low_s : forall r s b, der r s = Ok b -> s < 2 ^ 255 -> zlen b <= 71.
+Proof. exact der_length_low_s. Qed.
+Print Assumptions C01_der_length_low_s.
+
+(* ---------------------------------------------------------------- (7) RFC 6979 as "first acceptable candidate" *)
+
+(* the loop transcription of Spec/Rfc6979.v returns the first candidate in [1, q-1] of the DRBG sequence *)
+Theorem C01_step_h_first : forall q hmac fuel K V k,
+  step_h q hmac fuel K V = Some k <-> exists i, (i < fuel)%nat /\ first_acceptable q hmac (K, V) i k.
+Proof. exact step_h_first. Qed.
+Print Assumptions C01_step_h_first.
+
+(* the executable search used by the harness (returns the retry count too) is that relation, and gives the
+   nonce of the loop transcription *)
+Theorem C01_seq_search_first : forall q hmac fuel st i k,
+  seq_search q hmac fuel 0 st = Some (i, k) <-> (i < fuel)%nat /\ first_acceptable q hmac st i k.
+Proof. exact seq_search_first. Qed.
+Print Assumptions C01_seq_search_first.
+
+Theorem C01_rfc6979_seq_eq : forall q hmac fuel x h1 k,
+  rfc6979_k q hmac fuel x h1 = Some k <-> exists i, rfc6979_seq q hmac fuel x h1 = Some (i, k).
+Proof. exact rfc6979_seq_eq. Qed.
+Print Assumptions C01_rfc6979_seq_eq.
+
+(* the model: every HMAC, every fuel, every key, every integer digest below 2n *)
+Theorem C01_det_k_first : forall C hmac fuel d z k,
+  0 < cn C <= 2 ^ 256 -> 0 <= d < 2 ^ 256 -> 0 <= z < 2 * cn C ->
+  (deterministic_k C hmac fuel d z = Ok k <->
+   exists i, (i < fuel)%nat /\
+     first_acceptable (cn C) hmac (init_state hmac (int2octets d) (int2octets (z mod cn C))) i k).
+Proof. exact det_k_first. Qed.
+Print Assumptions C01_det_k_first.
+
+Theorem C01_det_k_first_secp256k1 : forall hmac fuel d z k,
+  0 <= d < 2 ^ 256 -> 0 <= z < 2 ^ 256 ->
+  (deterministic_k secp256k1 hmac fuel d z = Ok k <->
+   exists i, (i < fuel)%nat /\
+     first_acceptable (cn secp256k1) hmac
+       (init_state hmac (int2octets d) (int2octets (z mod cn secp256k1))) i k).
+Proof. intros. apply det_k_first; try assumption; cbn [cn secp256k1]; lia. Qed.
+Print Assumptions C01_det_k_first_secp256k1.
+
+(* no answer within fuel <-> every candidate so far was rejected; a rejected candidate is 0 or >= n *)
+Theorem C01_det_k_exhausted : forall C hmac fuel d z,
+  0 < cn C <= 2 ^ 256 -> 0 <= d < 2 ^ 256 -> 0 <= z < 2 * cn C ->
+  (deterministic_k C hmac fuel d z = Err <->
+   forall i, (i < fuel)%nat ->
+     ~ acceptable (cn C) (h_cand hmac i (init_state hmac (int2octets d) (int2octets (z mod cn C))))).
+Proof. exact det_k_exhausted. Qed.
+Print Assumptions C01_det_k_exhausted.
+
+Theorem C01_rejected_is_0_or_ge_n : forall q hmac i st, (forall K V, bytes_ok (hmac K V)) ->
+  ~ acceptable q (h_cand hmac i st) -> h_cand hmac i st = 0 \/ q <= h_cand hmac i st.
+Proof. exact rejected_is_0_or_ge_q. Qed.
+Print Assumptions C01_rejected_is_0_or_ge_n.
+
+(* the fuel decides only WHETHER an answer is given, never which *)
+Theorem C01_det_k_fuel_mono : forall C hmac fuel fuel' d z k, (fuel <= fuel')%nat ->
+  deterministic_k C hmac fuel d z = Ok k -> deterministic_k C hmac fuel' d z = Ok k.
+Proof. exact det_k_fuel_mono. Qed.
+Print Assumptions C01_det_k_fuel_mono.
+
+(* the RFC's own interface h1 = H(m) (32 octets) *)
+Theorem C01_det_k_of_hash : forall C hmac fuel d h1,
+  0 < cn C <= 2 ^ 256 -> 2 ^ 256 <= 2 * cn C -> 0 <= d < 2 ^ 256 ->
+  length h1 = 32%nat -> bytes_ok h1 ->
+  deterministic_k C hmac fuel d (from_be h1) = opt_res (rfc6979_k (cn C) hmac fuel d h1).
+Proof. exact det_k_of_hash. Qed.
+Print Assumptions C01_det_k_of_hash.
+
+(* ---------------------------------------------------------------- (8) verification algebra *)
+
+(* no group hypothesis: the digest enters only mod n (z and z + n, z >= n) *)
+Theorem C01_verify_z_mod : forall C P z r s,
+  ecdsa_verify C P (z mod cn C) r s = ecdsa_verify C P z r s.
+Proof. exact verify_z_mod. Qed.
+Print Assumptions C01_verify_z_mod.
+
+(* malleability twin, for every integer r and s *)
+Theorem C01_verify_twin : forall C, scalar_laws C -> forall P z r s, valid C P ->
+  ecdsa_verify C P z r (cn C - s) = ecdsa_verify C P z r s.
+Proof. exact verify_twin. Qed.
+Print Assumptions C01_verify_twin.
+
+(* a signature is accepted for a SECOND digest: z' = -z - 2 r d.  "altered digest => invalid" in the property's
+   parenthesis holds only up to this (and is what verify_iff_ecdsa says exactly) *)
+Theorem C01_verify_dup_digest : forall C, scalar_laws C -> forall d z r s,
+  ecdsa_verify C (mulT C d (G C)) (- z - 2 * r * d) r s = ecdsa_verify C (mulT C d (G C)) z r s.
+Proof. exact verify_dup_digest. Qed.
+Print Assumptions C01_verify_dup_digest.
+
+(* the shapes of R: infinity, x < n, n <= x (< 2n) *)
+Theorem C01_verify_cases : forall C, scalar_laws C -> forall P z r s,
+  valid C P -> 1 <= r < cn C -> 1 <= s < cn C ->
+  match ecdsa_point C P z r (modpow s (cn C - 2) (cn C)) with
+  | None => ecdsa_verify C P z r s = Ok false
+  | Some (x, _) =>
+      0 <= x /\
+      (x < cn C -> ecdsa_verify C P z r s = Ok (x =? r)) /\
+      (cn C <= x < 2 * cn C -> ecdsa_verify C P z r s = Ok (x - cn C =? r) /\
+                               ecdsa_verify C P z x s = Ok false)
+  end.
+Proof. exact verify_cases. Qed.
+Print Assumptions C01_verify_cases.
+
+Theorem C01_verify_true_x : forall C, scalar_laws C -> forall P z r s,
+  valid C P -> ecdsa_verify C P z r s = Ok true ->
+  exists x y, ecdsa_point C P z r (modpow s (cn C - 2) (cn C)) = Some (x, y) /\
+              0 <= x < cp C /\ x mod cn C = r.
+Proof. exact verify_true_x. Qed.
+Print Assumptions C01_verify_true_x.
+
+(* S256Point(None, None) as public key: a tuple anyone can compute is accepted (R = u1 G) *)
+Theorem C01_verify_infinity_key : forall C, scalar_laws C -> forall z s x y,
+  1 <= s < cn C ->
+  mulT C ((z * modpow s (cn C - 2) (cn C)) mod cn C) (G C) = Some (x, y) -> 1 <= x mod cn C ->
+  ecdsa_verify C None z (x mod cn C) s = Ok true.
+Proof. exact verify_infinity_key. Qed.
+Print Assumptions C01_verify_infinity_key.
+
+(* ---------------------------------------------------------------- (9) signing, exact conditions *)
+
+Theorem C01_sign_verifies_iff : forall C, scalar_laws C -> forall hmac fuel d z r s,
+  1 <= d < cn C -> ecdsa_sign C hmac fuel d z = Ok (r, s) ->
+  (ecdsa_verify C (mulT C d (G C)) z r s = Ok true <-> 1 <= r < cn C /\ s <> 0).
+Proof. exact sign_verifies_iff. Qed.
+Print Assumptions C01_sign_verifies_iff.
+
+Theorem C01_sign_k_verifies_iff : forall C, scalar_laws C -> forall d z k r s,
+  1 <= d < cn C -> 1 <= k < cn C -> ecdsa_sign_k C d z k = Ok (r, s) ->
+  (ecdsa_verify C (mulT C d (G C)) z r s = Ok true <-> 1 <= r < cn C /\ s <> 0).
+Proof. exact sign_k_verifies_iff. Qed.
+Print Assumptions C01_sign_k_verifies_iff.
+
+Theorem C01_sign_total_iff : forall C, scalar_laws C -> forall hmac fuel d z,
+  (exists r s, ecdsa_sign C hmac fuel d z = Ok (r, s)) <->
+  (exists k, deterministic_k C hmac fuel d z = Ok k).
+Proof. exact sign_total_iff. Qed.
+Print Assumptions C01_sign_total_iff.
+
+Theorem C01_sign_k_s_zero_iff : forall C, scalar_laws C -> forall d z k r s,
+  1 <= k < cn C -> ecdsa_sign_k C d z k = Ok (r, s) -> (s = 0 <-> (z + r * d) mod cn C = 0).
+Proof. exact sign_k_s_zero_iff. Qed.
+Print Assumptions C01_sign_k_s_zero_iff.
+
+(* digests z and z + n (z >= n is inside the property's quantifier) give the same signature *)
+Theorem C01_sign_z_plus_n : forall C hmac fuel d z, 0 < cn C -> 0 <= z < cn C ->
+  ecdsa_sign C hmac fuel d (z + cn C) = ecdsa_sign C hmac fuel d z.
+Proof. exact sign_z_plus_n. Qed.
+Print Assumptions C01_sign_z_plus_n.
+
+(* the property's "is the deterministic RFC 6979 signature": nonce spec and textbook equation composed *)
+Theorem C01_sign_is_rfc6979_textbook : forall C, scalar_laws C -> forall hmac fuel d z r s,
+  0 < cn C <= 2 ^ 256 -> 2 ^ 256 <= 2 * cn C -> 0 <= d < 2 ^ 256 -> 0 <= z < 2 ^ 256 ->
+  ecdsa_sign C hmac fuel d z = Ok (r, s) ->
+  exists k y w,
+    rfc6979_k (cn C) hmac fuel d (to_be 32 z) = Some k /\ 1 <= k < cn C /\
+    mulT C k (G C) = Some (r, y) /\ is_inv C k w /\
+    s = (let s0 := (w * (z + r * d)) mod cn C in
+         if (cn C - 1) / 2 <? s0 then cn C - s0 else s0).
+Proof. exact sign_is_rfc6979_textbook. Qed.
+Print Assumptions C01_sign_is_rfc6979_textbook.
+
+(* the same for every order n <= 2^256 and every integer digest below 2n (instantiable on the toy curve) *)
+Theorem C01_sign_is_drbg_textbook : forall C, scalar_laws C -> forall hmac fuel d z r s,
+  0 < cn C <= 2 ^ 256 -> 0 <= d < 2 ^ 256 -> 0 <= z < 2 * cn C ->
+  ecdsa_sign C hmac fuel d z = Ok (r, s) ->
+  exists k y w,
+    generate_from (cn C) hmac fuel (int2octets d) (int2octets (z mod cn C)) = Some k /\ 1 <= k < cn C /\
+    mulT C k (G C) = Some (r, y) /\ is_inv C k w /\
+    s = (let s0 := (w * (z + r * d)) mod cn C in
+         if (cn C - 1) / 2 <? s0 then cn C - s0 else s0).
+Proof. exact sign_is_drbg_textbook. Qed.
+Print Assumptions C01_sign_is_drbg_textbook.
+
+Theorem C01_sign_bad_digest : forall C hmac fuel d z,
+  0 < cn C <= 2 ^ 256 -> z < 0 \/ 2 ^ 256 + cn C <= z -> ecdsa_sign C hmac fuel d z = Err.
+Proof. exact sign_bad_digest. Qed.
+Print Assumptions C01_sign_bad_digest.
+
+(* ---------------------------------------------------------------- (9b) what one accepted tuple pins down *)
+
+(* "altered digest" / "different key" made exact: with the point R fixed, the digest is determined mod n and
+   the key is determined; any other accepted digest or key goes through another point with the same x mod n *)
+Theorem C01_same_R_same_digest : forall C, scalar_laws C -> forall P z z' r s,
+  valid C P -> 1 <= s < cn C ->
+  ecdsa_point C P z r (modpow s (cn C - 2) (cn C)) = ecdsa_point C P z' r (modpow s (cn C - 2) (cn C)) ->
+  z mod cn C = z' mod cn C.
+Proof. exact same_R_same_digest. Qed.
+Print Assumptions C01_same_R_same_digest.
+
+Theorem C01_same_R_same_key : forall C, scalar_laws C -> forall P P' z r s,
+  valid C P -> valid C P' -> 1 <= r < cn C -> 1 <= s < cn C ->
+  ecdsa_point C P z r (modpow s (cn C - 2) (cn C)) = ecdsa_point C P' z r (modpow s (cn C - 2) (cn C)) ->
+  P = P'.
+Proof. exact same_R_same_key. Qed.
+Print Assumptions C01_same_R_same_key.
+
+(* ---------------------------------------------------------------- (9c) the executable judge is complete *)
+
+(* the extracted specification run by the harness decides ecdsa_ok exactly (extended Euclid with fuel 600
+   terminates and inverts for every prime n <= 2^256), and equals the model's verify on every valid key *)
+Theorem C01_ecdsa_okb_iff : forall C Q z r s, prime (cn C) -> cn C <= 2 ^ 256 ->
+  (ecdsa_okb C Q z r s = true <-> ecdsa_ok C Q z r s).
+Proof. exact ecdsa_okb_iff. Qed.
+Print Assumptions C01_ecdsa_okb_iff.
+
+Theorem C01_okb_eq_verify : forall C, scalar_laws C -> cn C <= 2 ^ 256 -> forall P z r s, valid C P ->
+  ecdsa_verify C P z r s = Ok (ecdsa_okb C P z r s).
+Proof. exact okb_eq_verify. Qed.
+Print Assumptions C01_okb_eq_verify.
+
+(* ---------------------------------------------------------------- (10) the outer API (Model/EcdsaApi.v) *)
+
+Theorem C01_pubkey_ok_iff : forall C, scalar_laws C -> forall d,
+  (exists Q, pubkey C d = Ok Q) <-> 1 <= d < cn C.
+Proof. exact pubkey_ok_iff. Qed.
+Print Assumptions C01_pubkey_ok_iff.
+
+Theorem C01_pubkey_ok : forall C, scalar_laws C -> forall d, 1 <= d < cn C ->
+  pubkey C d = Ok (mulT C d (G C)) /\ valid C (mulT C d (G C)) /\ mulT C d (G C) <> None.
+Proof. exact pubkey_ok. Qed.
+Print Assumptions C01_pubkey_ok.
+
+(* no group hypothesis: PrivateKey(d) with d outside [1, n-1] raises, so nothing is signed *)
+Theorem C01_priv_sign_bad_secret : forall C hmac fuel d z,
+  d < 1 \/ cn C <= d -> priv_sign C hmac fuel d z = Err.
+Proof. exact priv_sign_bad_secret. Qed.
+Print Assumptions C01_priv_sign_bad_secret.
+
+(* PrivateKey(d).sign(z).der() -> Signature.parse -> point.verify, with everything the property lists *)
+Theorem C01_api_sign_der_verify : forall C, scalar_laws C -> forall hmac fuel d z r s,
+  cn C <= 2 ^ 256 ->
+  priv_sign C hmac fuel d z = Ok (r, s) -> 1 <= r < cn C -> s <> 0 ->
+  exists b,
+    sign_der C hmac fuel d z = Ok b /\
+    der_parse b = Ok (r, s) /\ der_strict b r s /\ 8 <= zlen b <= 72 /\
+    1 <= s <= (cn C - 1) / 2 /\
+    pubkey C d = Ok (mulT C d (G C)) /\
+    verify_der C (mulT C d (G C)) z b = Ok true /\
+    ecdsa_verify C (mulT C d (G C)) z r s = Ok true.
+Proof. exact api_sign_der_verify. Qed.
+Print Assumptions C01_api_sign_der_verify.
+
+Theorem C01_api_sign_der_length : forall C, scalar_laws C -> forall hmac fuel d z b,
+  cn C <= 2 ^ 256 -> sign_der C hmac fuel d z = Ok b -> 8 <= zlen b <= 71.
+Proof. exact api_sign_der_length. Qed.
+Print Assumptions C01_api_sign_der_length.
+
+(* what point.verify(z, Signature.parse(b)) accepts: exactly the frames around a textbook-valid (r, s) *)
+Theorem C01_verify_der_iff : forall C, scalar_laws C -> forall P z b, valid C P ->
+  (verify_der C P z b = Ok true <->
+   exists rb sb, b = der_frame rb sb /\ (1 <= length rb)%nat /\ (1 <= length sb)%nat /\
+                 ecdsa_ok C P z (from_be rb) (from_be sb)).
+Proof. exact verify_der_iff. Qed.
+Print Assumptions C01_verify_der_iff.
+
+Theorem C01_verify_der_malformed : forall C P z b, der_parse b = Err -> verify_der C P z b = Err.
+Proof. exact verify_der_malformed. Qed.
+Print Assumptions C01_verify_der_malformed.
+
+Theorem C01_verify_der_accepts_padded : forall C P z rb sb,
+  (1 <= length rb)%nat -> (1 <= length sb)%nat ->
+  verify_der C P z (der_frame (0 :: rb) sb) = verify_der C P z (der_frame rb sb) /\
+  verify_der C P z (der_frame rb (0 :: sb)) = verify_der C P z (der_frame rb sb).
+Proof. exact verify_der_accepts_padded. Qed.
+Print Assumptions C01_verify_der_accepts_padded.
+
+(* sign_message / verify_message, for every hash function *)
+Theorem C01_api_sign_message_verify : forall C, scalar_laws C -> forall hmac fuel hash256 d m r s,
+  cn C <= 2 ^ 256 ->
+  sign_message C hmac hash256 fuel d m = Ok (r, s) -> 1 <= r < cn C -> s <> 0 ->
+  verify_message C hash256 (mulT C d (G C)) m r s = Ok true /\
+  exists b, sign_message_der C hmac hash256 fuel d m = Ok b /\
+            verify_message_der C hash256 (mulT C d (G C)) m b = Ok true.
+Proof. exact api_sign_message_verify. Qed.
+Print Assumptions C01_api_sign_message_verify.
+
+Theorem C01_sign_message_nonce : forall C, scalar_laws C -> forall hmac fuel hash256 d m,
+  0 < cn C <= 2 ^ 256 -> 2 ^ 256 <= 2 * cn C -> 1 <= d < cn C ->
+  length (hash256 m) = 32%nat -> bytes_ok (hash256 m) ->
+  sign_message C hmac hash256 fuel d m =
+  (k <- opt_res (rfc6979_k (cn C) hmac fuel d (hash256 m)) ;; ecdsa_sign_k C d (msg_digest hash256 m) k).
+Proof. exact sign_message_nonce. Qed.
+Print Assumptions C01_sign_message_nonce.
+
+(* public key and signature both from the wire (SEC, either compression; DER) *)
+Theorem C01_api_wire_roundtrip : forall C, scalar_laws C -> forall hmac fuel,
+  ca C = 0 -> cp C mod 4 = 3 -> cp C < pow256 32 ->
+  forall d z r s c,
+  cn C <= 2 ^ 256 ->
+  priv_sign C hmac fuel d z = Ok (r, s) -> 1 <= r < cn C -> s <> 0 ->
+  exists sb b,
+    sec (mulT C d (G C)) c = Ok sb /\ sign_der C hmac fuel d z = Ok b /\
+    verify_wire C sb z b = Ok true.
+Proof. exact api_wire_roundtrip. Qed.
+Print Assumptions C01_api_wire_roundtrip.
+
 (* ---------------------------------------------------------------- non-vacuity: the toy curve
    y^2 = x^3 + 7 over F_43, n = 31, G = (2, 12); scalar_laws is proved for it by exhaustive
    computation (Proofs/ToyCurve.v), so every hypothesis above is satisfiable. *)
@@ -209,6 +579,105 @@ Example toy_r_ge_n : exists k r s, ecdsa_sign_k toy 5 9 k = Ok (r, s) /\ cn toy 
 Proof.
   exists 3, 35, 11. vm_compute. split; [reflexivity|]. split; [discriminate|reflexivity].
 Qed.
+
+(* ---------------------------------------------------------------- non-vacuity of sections 6-10 *)
+
+(* RFC 6979 retry loop with both rejection classes, on n = 31 with toy_hmac (any function is an HMAC instance):
+   d = 5, z = 14: candidate 0 is 31 = n (rejected), candidate 1 is 4 (accepted); with fuel 1 no answer;
+   d = 1, z = 3: candidate 0 is 0 (rejected) *)
+Example toy_retry_ge_n :
+  h_cand toy_hmac 0 (init_state toy_hmac (int2octets 5) (int2octets (14 mod cn toy))) = cn toy /\
+  h_cand toy_hmac 1 (init_state toy_hmac (int2octets 5) (int2octets (14 mod cn toy))) = 4 /\
+  deterministic_k toy toy_hmac 20 5 14 = Ok 4 /\ deterministic_k toy toy_hmac 1 5 14 = Err.
+Proof. vm_compute. repeat split; reflexivity. Qed.
+Example toy_retry_zero :
+  h_cand toy_hmac 0 (init_state toy_hmac (int2octets 1) (int2octets (3 mod cn toy))) = 0 /\
+  deterministic_k toy toy_hmac 20 1 3 = Ok 6.
+Proof. vm_compute. split; reflexivity. Qed.
+Example toy_det_k_first : exists i, (i < 20)%nat /\
+  first_acceptable (cn toy) toy_hmac (init_state toy_hmac (int2octets 5) (int2octets (14 mod cn toy))) i 4.
+Proof.
+  apply (C01_det_k_first toy toy_hmac 20 5 14 4); try (cbn [cn toy]; lia).
+  vm_compute. reflexivity.
+Qed.
+
+(* PrivateKey(5).sign(14).der() -> parse -> verify on the toy curve: all hypotheses of the API theorems hold *)
+Example toy_priv_sign : priv_sign toy toy_hmac 20 5 14 = Ok (21, 9).
+Proof. vm_compute. reflexivity. Qed.
+Example toy_api_roundtrip : exists b,
+  sign_der toy toy_hmac 20 5 14 = Ok b /\ der_parse b = Ok (21, 9) /\ der_strict b 21 9 /\
+  8 <= zlen b <= 72 /\ 1 <= 9 <= (cn toy - 1) / 2 /\
+  pubkey toy 5 = Ok (mulT toy 5 (G toy)) /\
+  verify_der toy (mulT toy 5 (G toy)) 14 b = Ok true /\
+  ecdsa_verify toy (mulT toy 5 (G toy)) 14 21 9 = Ok true.
+Proof.
+  apply (C01_api_sign_der_verify toy toy_scalar_laws toy_hmac 20 5 14 21 9).
+  - cbn [cn toy]. lia.
+  - exact toy_priv_sign.
+  - cbn [cn toy]. lia.
+  - discriminate.
+Qed.
+Example toy_wire_roundtrip : exists sb b,
+  sec (mulT toy 5 (G toy)) true = Ok sb /\ sign_der toy toy_hmac 20 5 14 = Ok b /\
+  verify_wire toy sb 14 b = Ok true.
+Proof.
+  apply (C01_api_wire_roundtrip toy toy_scalar_laws toy_hmac 20 eq_refl eq_refl eq_refl 5 14 21 9 true).
+  - cbn [cn toy]. lia.
+  - exact toy_priv_sign.
+  - cbn [cn toy]. lia.
+  - discriminate.
+Qed.
+Example toy_sign_message : sign_message toy toy_hmac toy_hash 20 5 [27] = Ok (7, 14).
+Proof. vm_compute. reflexivity. Qed.
+Example toy_message_roundtrip :
+  verify_message toy toy_hash (mulT toy 5 (G toy)) [27] 7 14 = Ok true /\
+  exists b, sign_message_der toy toy_hmac toy_hash 20 5 [27] = Ok b /\
+            verify_message_der toy toy_hash (mulT toy 5 (G toy)) [27] b = Ok true.
+Proof.
+  apply (C01_api_sign_message_verify toy toy_scalar_laws toy_hmac 20 toy_hash 5 [27] 7 14).
+  - cbn [cn toy]. lia.
+  - exact toy_sign_message.
+  - cbn [cn toy]. lia.
+  - discriminate.
+Qed.
+(* the hypotheses of C01_det_k_of_hash / C01_sign_message_nonce hold for secp256k1 *)
+Example secp256k1_order_bounds : 0 < cn secp256k1 <= 2 ^ 256 /\ 2 ^ 256 <= 2 * cn secp256k1.
+Proof. cbn [cn secp256k1]. lia. Qed.
+(* ... and the curve-shape hypotheses of C01_api_wire_roundtrip *)
+Example secp256k1_wire_hyps : ca secp256k1 = 0 /\ cp secp256k1 mod 4 = 3 /\ cp secp256k1 < pow256 32.
+Proof. split; [reflexivity|]. split; [vm_compute; reflexivity|]. rewrite BytesP.pow256_32. cbn [cp secp256k1]. lia. Qed.
+
+(* the emitted toy signature is the textbook one for the DRBG nonce *)
+Example toy_sign_textbook := C01_sign_is_drbg_textbook toy toy_scalar_laws toy_hmac 20 5 14 21 9.
+Example toy_sign_14 : ecdsa_sign toy toy_hmac 20 5 14 = Ok (21, 9) /\ 0 < cn toy <= 2 ^ 256 /\ 0 <= 14 < 2 * cn toy.
+Proof. split; [vm_compute; reflexivity|]. cbn [cn toy]. lia. Qed.
+(* same R: digests 9 and 9 + n *)
+Example toy_same_R : ecdsa_point toy (mulT toy 5 (G toy)) 9 4 (modpow 20 (cn toy - 2) (cn toy)) =
+                     ecdsa_point toy (mulT toy 5 (G toy)) 40 4 (modpow 20 (cn toy - 2) (cn toy)).
+Proof. vm_compute. reflexivity. Qed.
+
+Example toy_okb : ecdsa_okb toy (mulT toy 5 (G toy)) 9 7 9 = true /\ ecdsa_okb toy (mulT toy 5 (G toy)) 10 7 9 = false.
+Proof. vm_compute. split; reflexivity. Qed.
+(* a valid toy tuple whose R has x = 35 >= n = 31: accepted with r = x - n = 4, refused with r = x *)
+Example toy_high_x :
+  ecdsa_point toy (mulT toy 5 (G toy)) 9 4 (modpow 20 (cn toy - 2) (cn toy)) = Some (35, 21) /\
+  ecdsa_verify toy (mulT toy 5 (G toy)) 9 4 20 = Ok true /\
+  ecdsa_verify toy (mulT toy 5 (G toy)) 9 35 20 = Ok false.
+Proof. vm_compute. repeat split; reflexivity. Qed.
+(* the second digest of C01_verify_dup_digest: (20, 2) under 30*G is valid for z = 7 and for
+   z' = (-7 - 2*20*30) mod 31 = 2 *)
+Example toy_dup_digest :
+  ecdsa_verify toy (mulT toy 30 (G toy)) 7 20 2 = Ok true /\
+  ecdsa_verify toy (mulT toy 30 (G toy)) 2 20 2 = Ok true /\ (- 7 - 2 * 20 * 30) mod cn toy = 2.
+Proof. vm_compute. repeat split; reflexivity. Qed.
+(* the infinity "key" accepts a tuple computed without any secret *)
+Example toy_infinity_key : ecdsa_verify toy None 4 20 3 = Ok true.
+Proof. vm_compute. reflexivity. Qed.
+(* s = 0 (z + r d = 0 mod n): returned as is, does not verify, and .der() raises *)
+Example toy_s_zero :
+  ecdsa_sign_k toy 5 27 2 = Ok (7, 0) /\ (27 + 7 * 5) mod cn toy = 0 /\
+  ecdsa_verify toy (mulT toy 5 (G toy)) 27 7 0 = Ok false /\ der 7 0 = Err.
+Proof. vm_compute. repeat split; reflexivity. Qed.
 
 (* The constants written in the model are the constants of the SOURCE: coq/Generated/SrcConsts.v is regenerated
    from /repo/buidl/*.py by harness/gen_coq_consts.py on every run; the statements are spelled out in
